@@ -67,6 +67,16 @@ func (t *tStructProto) structPack(m erpc.Message) error {
 	} else if bodyCodec != codec.ID_THRIFT {
 		return errors.New("body codec must be thrift")
 	}
+	var s thrift.TStruct
+	switch b := m.Body().(type) {
+	case thrift.TStruct:
+		s = b
+	case nil:
+		// a message without a body, e.g. an error reply
+		s = codec.ThriftEmptyStruct
+	default:
+		return fmt.Errorf("thrift codec: %T does not implement thrift.TStruct", m.Body())
+	}
 	t.packLock.Lock()
 	defer t.packLock.Unlock()
 	t.rwCounter.WriteCounter.Zero()
@@ -76,10 +86,6 @@ func (t *tStructProto) structPack(m erpc.Message) error {
 		return err
 	}
 
-	s, ok := m.Body().(thrift.TStruct)
-	if !ok {
-		return fmt.Errorf("thrift codec: %T does not implement thrift.TStruct", m.Body())
-	}
 	if err = s.Write(t.tProtocol); err != nil {
 		return err
 	}
@@ -115,11 +121,17 @@ func (t *tStructProto) structUnpack(m erpc.Message) error {
 	m.Meta().Parse(headers[HeaderMeta])
 
 	m.UnmarshalBody(nil)
-	s, ok := m.Body().(thrift.TStruct)
-	if !ok {
-		return fmt.Errorf("thrift codec: %T does not implement thrift.TStruct", m.Body())
+	switch s := m.Body().(type) {
+	case thrift.TStruct:
+		err = s.Read(t.rProtocol)
+	case nil:
+		// nobody takes the body (unknown route, reply to a call that is gone):
+		// skip it, so that the message can still be answered or ignored
+		err = t.rProtocol.Skip(thrift.STRUCT)
+	default:
+		err = fmt.Errorf("thrift codec: %T does not implement thrift.TStruct", m.Body())
 	}
-	if err = s.Read(t.rProtocol); err != nil {
+	if err != nil {
 		return err
 	}
 
